@@ -642,11 +642,18 @@ def part_elevate(ctx, model_ok=False):
             c, t = Mesh.create_structured_mesh_data(r.randrange(2, 4), r.randrange(2, 4), [0., 1.], [0., 2.])
             pts, tris = np.asarray(c), np.asarray(t).tolist()
         todo.append((order, bubble, pts, tris))
-    exprs, slots, exprs2, full = [], [], [], []
+    exprs, slots, exprs2, full, done = [], [], [], [], []
     for order, bubble, pts, tris in todo:
         base = Mesh.construct_mesh_from_basic_data(jnp.array(pts), jnp.array(tris, dtype=jnp.int64), {'b': jnp.arange(len(tris))},
                                                    None, {'s': jnp.array([[0, 0]])})
-        m = Mesh.create_higher_order_mesh_from_simplex_mesh(base, order, useBubbleElement=bubble)
+        try:
+            m = Mesh.create_higher_order_mesh_from_simplex_mesh(base, order, useBubbleElement=bubble)
+        except Exception as ex:
+            ctx.fail('conclusion', 'order elevation (order %d%s) raised %r' % (order, ' bubble' if bubble else '', ex),
+                     case=dict(part='elevate', order=order, bubble=bubble, coords=np.asarray(pts).tolist(), conns=tris), concrete=True)
+            done.append(False)
+            continue
+        done.append(True)
         ctx.count('evaluations')
         ctx.count('elevation_cases')
         conns = np.asarray(m.conns)
@@ -710,6 +717,7 @@ def part_elevate(ctx, model_ok=False):
                 ctx.fail('certificate', 'certificate failed: ' + nm, case=dict(part='certificate', what=nm))
         ctx.cov['certificates_exhaustive_over'] = 'orders 1..5 x {plain, bubble} reference elements; Lobatto degrees 1..5'
         res = C.coq_eval(IMPORTS, exprs, 'C13v', shard=40)
+        todo = [t for t, ok in zip(todo, done) if ok]
         for (order, bubble, pts, tris), want, got in zip(todo, slots, res):
             if got != want:
                 ctx.fail('correspondence', 'order elevation (order %d%s): the ids in the (edge,k)/(element,k) slots differ from the model numbering'
